@@ -1,4 +1,5 @@
 import Blf.TruncRound
+import Blf.FileTrunc
 /-!
 # C08 — A file cut off at any byte reads as an unmodified prefix of its objects
 
@@ -11,11 +12,18 @@ Proved at the level of the uncompressed stream, for every cut position (not a sa
 * `C08_cut_object_dropped`: the single step behind it — the stream ends inside the fields of an object: the decoder comes
   back short, the stream is not good, the parser's loop ends.
 
-Because log containers are all-or-nothing for the reader, what the parser sees of a truncated *file* is always such a prefix of
-the stream (the payloads of the completely stored containers).  That last step — the inflater stops at the first incompletely
-stored container without handing anything of it to the stream, for every cut inside a container or inside the 144-byte
-statistics block — is covered by `C10_read_session_ends_without_ub` (ends, no undefined behaviour) and otherwise validated
-dynamically (every truncation offset of written files, both header variants), not proved here.
+and at the level of the file, for every cut position `t ≥ 144` (anywhere behind the statistics block):
+
+* `C08_file_prefix`: a read session on the first `t` bytes of a file the writer produced ends with the null result and delivers
+  exactly the first `deliveredAt … t` objects written, unmodified and in order — the objects whose fields lie inside the payloads
+  of the containers whose header and stored bytes lie inside the first `t` bytes (a container of which only the trailing padding is
+  cut counts as stored; a container cut anywhere before is dropped entirely: the decoder comes back short on the in-memory
+  stream, so the `std::fstream`-like stream is not good, `containerStep_cut`);
+* `C08_file_monotone`: `deliveredAt` never decreases when `t` grows.
+
+Not proved: cuts inside the 144-byte statistics block (`t < 144`; no container is complete there; only
+`C10_read_session_ends_without_ub` applies), files whose header still holds the initial all-zero statistics (the reader does
+not consult them; covered dynamically), the classes outside the exactly-framed fragment.
 -/
 namespace Blf.Props
 open Blf Blf.FileSeq Blf.FileRound Blf.TruncRound
@@ -40,5 +48,22 @@ theorem C08_cut_object_dropped (cap : Nat) (c : Codec) (lay : Layout) (o : Obj) 
     (hmb : m < 4 + (encItems (pre c lay o) lay.body).length)
     (hin : B.drop ps.st.pos = (enc cap c o).take m) : objectStep cap ps = none :=
   objectStep_cut cap c lay o hp harr B ps hi m hmb hin
+
+theorem C08_file_prefix (Z : Zlib) (hZ : ContainerRound.ZRT Z) (cap : Nat) (cfg : WCfg) (hdr : Obj)
+    (L : List (Codec × Layout × Obj))
+    (hL : ∀ x ∈ L, Parsable cap x.1 x.2.1 x.2.2 ∧ ArrOK x.1.fresh x.2.1.items)
+    (hsig : hdr.num 0 = FILESIG)
+    (hH : ItemsWF (FileRoundTrip.storedHeader Z cap cfg hdr (L.map fun x => (x.1, x.2.2))) FileRoundTrip.Lfull)
+    (hP : ∀ p ∈ FileRoundTrip.payloads cap cfg (L.map fun x => (x.1, x.2.2)), ContainerRound.PayloadOK Z cap cfg.level p)
+    (t : Nat) (ht : 144 ≤ t) :
+    (readFile Z cap ((writeFile Z cap cfg hdr (L.map fun x => (x.1, x.2.2))).take t)).outcome = .ended ∧
+    AllDelivered (L.take (FileTrunc.deliveredAt Z cap cfg L t))
+      (readFile Z cap ((writeFile Z cap cfg hdr (L.map fun x => (x.1, x.2.2))).take t)).objs := by
+  obtain ⟨ds, h1, h2, h3⟩ := FileTrunc.read_truncated_file Z hZ cap cfg hdr L hL hsig hH hP t ht
+  exact ⟨h1, by rw [h2]; exact h3⟩
+
+theorem C08_file_monotone (Z : Zlib) (cap : Nat) (cfg : WCfg) (L : List (Codec × Layout × Obj)) (t t' : Nat) (h : t ≤ t') :
+    FileTrunc.deliveredAt Z cap cfg L t ≤ FileTrunc.deliveredAt Z cap cfg L t' :=
+  FileTrunc.deliveredAt_mono Z cap cfg L t t' h
 
 end Blf.Props
